@@ -6,7 +6,7 @@ The valuations are PROPOSED here and EVALUATED by the spec (HplEval).  A badly b
 only make the input undefined under it (no obligation, counted), never produce a false alarm."""
 import itertools
 
-NUMS = [['n', 0, 1], ['n', 1, 1], ['n', -1, 1], ['n', 2, 1]]
+NUMS = [['n', 0, 1], ['n', 1, 1], ['n', -1, 1], ['n', 2, 1], ['n', -1, 2], ['n', 1, 2]]   # 0 1 -1 2 -0.5 0.5
 BOOLS = [['b', True], ['b', False]]
 STRS = [['s', 'a'], ['s', 'b']]
 
